@@ -20,6 +20,12 @@ ASSUMPTIONS = [
 @st.composite
 def cases(draw, nums):
     rational = draw(st.integers(0, 2)) == 0
+    if nums == ("int",):
+        a = draw(st.integers(-3, 3))
+        L = draw(st.integers(1, 7))
+        c = draw(gen.curves(0, 3 if rational else 4, 4, nums=nums, rational=rational, interval=(F(a), F(a + L)), grid=L,
+                            values=st.integers(-12, 12).map(F)))
+        return {"curve": c}
     c = draw(gen.curves(0, 3 if rational else 4, 3 if rational else 4, nums=nums, rational=rational))
     return {"curve": c}
 
@@ -90,7 +96,7 @@ def check(case, out):
         want = exact_derivative(ref, lo, hi, ts)
         for t, wv in zip(ts, want):
             u = lo + (hi - lo) * t
-            lu = u if exact else lib.conv_knot(u, num)
+            lu = u if exact else lib.conv_param(u, num)
             fu = oracle.frac(lu)
             if not exact:
                 # the float parameter differs slightly from u: differentiate at the float parameter
@@ -123,4 +129,6 @@ FACETS = [
     Facet("exact", lambda tier: cases(("frac", "fracint")), check, quick=500, thorough=8000,
           rule="Fraction knots/points"),
     Facet("float", lambda tier: cases(("float", "npfloat")), check, quick=250, thorough=4000, rule="float data"),
+    Facet("int-knots", lambda tier: cases(("int",)), check, quick=250, thorough=4000,
+          rule="int knots (non-uniform integer spacing) and int points"),
 ]
